@@ -1011,5 +1011,29 @@ fn main() {
         .shards(8),
     );
 
+    // batches a vector kernel can take in lockstep: all items of one length, one item per lane
+    let f6 = feats.clone();
+    ck.run(
+        Section::enumerate(
+            "simd-batch-uniform",
+            "batch_content_keys / batch_jenkins96_data / batch_jenkins96_paths on batches of 1, 4, 7, 8, 9, 16, 17 and 24 items that all have the same length, every length 0..=200 and 252, 256, 1020, 1024; and the same 8 / 16 items followed by three items of other lengths; all host feature subsets against none() and the reference lookup3".to_string(),
+            move || {
+                Box::new((0..=200usize).chain([252, 256, 1020, 1024]).flat_map(move |len| {
+                    [1usize, 4, 7, 8, 9, 16, 17, 24].into_iter().flat_map(move |n| {
+                        let mut v = vec![BatchCase { lens: vec![len; n], content_seed: seed ^ 0x8888 ^ (len as u64) << 8 ^ n as u64 }];
+                        if n == 8 || n == 16 {
+                            let mut lens = vec![len; n];
+                            lens.extend([len + 1, 0, 12]);
+                            v.push(BatchCase { lens, content_seed: seed ^ 0x9999 ^ (len as u64) << 8 ^ n as u64 });
+                        }
+                        v
+                    })
+                }))
+            },
+            move |c: &BatchCase| check_batch(c, &f6),
+        )
+        .shards(8),
+    );
+
     ck.finish();
 }
